@@ -198,10 +198,25 @@ func famModules(r *fw.Rng, p Poison) Built {
 			b.f("    println(\"%s singleton\", $S_%s.n, $S_%s.tag);\n", m, m, m)
 		}
 		b.f("    x\n}\n")
+		if overlap {
+			// every module exports a function of this name; the entry imports only the first one
+			b.f("pub fn whoami() -> str {\n    \"%s\"\n}\n", m)
+		}
 		b.f("fn main() {\n    println(\"main of %s\", %s);\n}\n", m, gl[0])
 		src[m] = b.String()
-		mainB.f("import { get_%s, describe_%s } from %s;\n", m, m, m)
+		if overlap && mi == 0 {
+			mainB.f("import { get_%s, describe_%s, whoami } from %s;\n", m, m, m)
+		} else {
+			mainB.f("import { get_%s, describe_%s } from %s;\n", m, m, m)
+		}
 		calls = append(calls, m)
+	}
+	ambiguous := overlap && r.Chance(1, 2)
+	if ambiguous {
+		// `@p_q_r` is function q_r of module p and function r of module p_q
+		src["p"] = "let p_state = 0;\npub fn q_r() -> str {\n    \"p.q_r\"\n}\nfn main() {}\n"
+		src["p_q"] = "let pq_state = 0;\npub fn r() -> str {\n    \"p_q.r\"\n}\nfn main() {}\n"
+		mainB.f("import { q_r } from p;\nimport { r } from p_q;\n")
 	}
 	s := suffix("main")
 	mainB.f("let v%s = 1;\nlet w%s = \"main-w\";\nlet count%s = 100;\n", s, s, s)
@@ -211,6 +226,12 @@ func famModules(r *fw.Rng, p Poison) Built {
 	mainB.f("fn helper%s(x: int) -> int {\n    let acc = x * 10;\n    acc + v%s\n}\n", s, s)
 	mainB.f("fn label%s() -> str {\n    \"main:\" + w%s\n}\n", s, s)
 	mainB.f("fn main() {\n")
+	if overlap {
+		mainB.f("    println(\"whoami\", whoami());\n")
+	}
+	if ambiguous {
+		mainB.f("    println(\"ambiguous\", q_r(), r());\n")
+	}
 	for round := 0; round < 2; round++ {
 		for _, m := range calls {
 			mainB.f("    println(\"%s\", get_%s(), describe_%s());\n", m, m, m)
@@ -339,6 +360,10 @@ func famLocals(r *fw.Rng, p Poison) Built {
 		for depth > 0 {
 			depth--
 			b.f("%s}\n", strings.Repeat("    ", depth+1))
+		}
+		if r.Chance(2, 3) {
+			// a function literal per function: literals are numbered in the order of compilation
+			b.f("    let bump%d = fn(k: int) -> int { k + %d };\n    total = bump%d(total);\n", f, f+1, f)
 		}
 		b.f("    total\n}\n")
 	}
@@ -665,8 +690,6 @@ func famMisc(r *fw.Rng, p Poison) Built {
 		}
 	}
 	for i, n := range names {
-		lit, _ := objLit(r, 4+r.Intn(4), false)
-		_ = lit
 		b.f("$%s = { n%d: int, s%d: str, f%d: float, b%d: bool, l%d: [int] };\n", n, i, i, i, i, i)
 	}
 	for i, n := range names {
